@@ -117,6 +117,10 @@ func run(ci any) (res obs.Result) {
 	if c.Mode == "dialclose" {
 		rec.DialHook = func(ctx context.Context, n int) error {
 			if n == 1 {
+				if c.At%2 == 1 {
+					// a slow failing dial: Close() overtakes it, the failure is reported after the client was closed
+					time.Sleep(150 * time.Millisecond)
+				}
 				return errors.New("injected dial failure")
 			}
 			return nil
@@ -339,6 +343,18 @@ func run(ci any) (res obs.Result) {
 		if !errors.Is(r.Error(), rueidis.ErrClosing) {
 			fails = append(fails, fmt.Sprintf("a call after Close returned %q, not ErrClosing", fmt.Sprint(r.Error())))
 			res.Class, res.Site = "after-close", "mux.go:Close"
+		}
+		if c.Mode == "dialclose" && len(fails) == 0 {
+			// once the (possibly slow) failing dial is over as well: still ErrClosing
+			bd := make(chan struct{})
+			go func() { blockWg.Wait(); close(bd) }()
+			if waitFor(bd, bound) {
+				r := cl.Do(bg, cl.B().Echo().Message("afterclose2").Build())
+				if !errors.Is(r.Error(), rueidis.ErrClosing) {
+					fails = append(fails, fmt.Sprintf("a call after Close and after a dial that failed during Close returned %q, not ErrClosing", fmt.Sprint(r.Error())))
+					res.Class, res.Site = "after-close", "mux.go:Close"
+				}
+			}
 		}
 	}
 	// tear every server-side connection down: whatever is still pending must come back now
